@@ -197,6 +197,14 @@ def streams(tier, rng, P, only=None, cases=None):
             wrap = rng.choice(["Sub{%s} f", "{%s}4 f", "{%s}2 f g", "[2 %s] f", "Sub{ {%s}4 } f", "'c e' Sub{%s} g", "{c {%s}8 d}2 f"])
             a = "l4 " + (wrap % with_) + " n100"; b = "l4 " + (wrap % without) + " n100"
             cs.append(dict(req="compile2 %s %s" % (hx(a), hx(b)), src=a, src2=b, show="%s   vs   %s" % (a, b), key="x%d" % i))
+        # chord members played by a function, a macro or a string variable called between the quotes: they are members like written-out notes
+        calls = [("Function TOP(){ e g }", "TOP()", "e g"), ("#M={e g}", "#M", "e g"), ("STR SQ={g b}", "SQ", "g b"), ("Function TP(INT K=1){ [(K) e] g }", "TP(2)", "e e g"),
+                 ("Function TQ(){ e TOP2() } Function TOP2(){ g }", "TQ()", "e g")]
+        for i in range(200 if big else 40):
+            pre, call, inl = rng.choice(calls)
+            wrap = rng.choice(["'c %s'2 d", "'%s'4 c", "Sub{ 'd %s'8 } f", "[2 'c %s'] e", "'%s c'1 d"])
+            a = pre + " l4 " + (wrap % call) + " n100"; b = pre + " l4 " + (wrap % inl) + " n100"
+            cs.append(dict(req="compile2 %s %s" % (hx(a), hx(b)), src=a, src2=b, show="%s   vs   %s" % (a, b), key="xc%d" % i))
         return cs
     def x_judge(c, impl, m):
         st, f = impl
@@ -205,7 +213,9 @@ def streams(tier, rng, P, only=None, cases=None):
         if ta is None or tb_ is None or len(ta) != len(tb_): return ("violation", "different numbers of tracks")
         for a, b in zip(ta, tb_):
             na = [(e[0], e[2]) for e in a if e[1] in ("on", "off")]; nb = [(e[0], e[2]) for e in b if e[1] in ("on", "off")]
-            if na != nb: return ("violation", "a command that does not move the pointer moved the notes of a block: %s vs %s" % (na[:6], nb[:6]))
+            if na != nb:
+                if c["key"].startswith("xc"): return ("violation", "chord members played through a call differ from the written-out chord: %s vs %s" % (na[:6], nb[:6]))
+                return ("violation", "a command that does not move the pointer moved the notes of a block: %s vs %s" % (na[:6], nb[:6]))
         return None
     s6 = Stream("blockextras", cases if (cases and only == "blockextras") else mk_x(), lambda c, st, f: [], x_judge, lambda c, i, m: i[1].get("bin1") if i[0] == "ok" else None,
                 "tempo / controller ramps and texts inside blocks do not move the notes")
